@@ -20,6 +20,20 @@ type mslState struct {
 	fe          *mslFE
 	parser      *parser
 	sizesStruct *Type // struct _mslBufferSizes
+	opaques     map[string]*Type
+	// functions that use a valid but unmodelled construct: skipped by the
+	// parser (by name) or abandoned by the checker (by function)
+	skipped       map[string]*UnsupportedError
+	skippedList   []mslSkipped
+	unsupportedFn map[*Function]*UnsupportedError
+}
+
+// mslSkipped is a function the parser skipped.
+type mslSkipped struct {
+	Name  string
+	Stage string
+	Pos   Pos
+	Err   *UnsupportedError
 }
 
 func (st *mslState) ptrTo(elem *Type, space string) *Type {
@@ -66,6 +80,14 @@ func (r *mslRules) namedType(name string) (*Type, bool) {
 		space, inner := name[1:bar], name[bar+1:]
 		pointee := r.c.resolveType(&TypeExpr{Name: inner}, unsizedNo)
 		return r.st.ptrTo(pointee, space), true
+	}
+	if strings.HasPrefix(name, "%") {
+		t := r.st.opaques[name]
+		if t == nil {
+			t = &Type{Kind: KOpaque, Name: "metal::" + name[1:]}
+			r.st.opaques[name] = t
+		}
+		return t, true
 	}
 	if s := r.c.lookup(name); s != nil && s.Kind == SymStruct {
 		return nil, false // a user type (struct, typedef, template parameter) hides the built-in name
@@ -548,6 +570,9 @@ func (r *mslRules) checkVecMember(c *checker, m *Member) bool {
 
 func (r *mslRules) localVar(c *checker, v *VarDecl) bool {
 	if !v.Quals.Shared {
+		if t := c.resolveType(&TypeExpr{Pos: v.TypeX.Pos, Name: v.TypeX.Name}, unsizedNo); t.Kind == KOpaque || t.containsKind(KOpaque) {
+			c.unsupported(v.Pos, "local variable of type %s", mslTypeString(t))
+		}
 		return false
 	}
 	fi := r.st.funcInfo[c.fn]
@@ -731,9 +756,74 @@ var mslBuiltinInputs = map[string]bool{
 	"threads_per_grid": true, "dispatch_threads_per_threadgroup": true,
 }
 
+// resolveCall (callRules): a call that matched no user function.
+func (r *mslRules) resolveCall(c *checker, x *Call) Expr {
+	if ue := r.st.skipped[x.Name]; ue != nil {
+		c.unsupported(x.Pos, "call of %s, which uses a construct that is not modelled (%s)", x.Name, ue.What)
+	}
+	return nil
+}
+
+// checkIsolated checks a function; a valid-but-unmodelled construct inside it
+// marks the function (and through the call graph its callers) as unsupported
+// instead of failing the translation unit.
+func (r *mslRules) checkIsolated(c *checker, fn *Function) {
+	nscopes := len(c.scopes)
+	defer func() {
+		rec := recover()
+		if rec == nil {
+			return
+		}
+		b, ok := rec.(bail)
+		if !ok {
+			panic(rec)
+		}
+		ue, ok := b.err.(*UnsupportedError)
+		if !ok {
+			panic(rec)
+		}
+		c.scopes = c.scopes[:nscopes]
+		c.fn, c.frame, c.loops, c.swits = nil, 0, 0, 0
+		registered := false
+		if s := c.scopes[0].syms[fn.Name]; s != nil && s.Kind == SymFunc {
+			for _, f := range s.Funcs {
+				if f == fn {
+					registered = true
+				}
+			}
+		}
+		if registered {
+			r.st.unsupportedFn[fn] = ue
+			if fn.callees == nil {
+				fn.callees = map[*Function]bool{}
+			}
+		} else {
+			r.st.skipped[fn.Name] = ue
+			fi := r.st.funcInfo[fn]
+			stage := ""
+			if fi != nil {
+				stage = fi.Stage
+			}
+			r.st.skippedList = append(r.st.skippedList, mslSkipped{Name: fn.Name, Stage: stage, Pos: fn.Pos, Err: ue})
+		}
+	}()
+	c.function(fn)
+}
+
 func (r *mslRules) function(c *checker, fn *Function) {
 	fi := r.st.funcInfo[fn]
-	c.function(fn)
+	r.checkIsolated(c, fn)
+	if r.st.skipped[fn.Name] != nil && r.st.unsupportedFn[fn] == nil {
+		registered := false
+		if s := c.scopes[0].syms[fn.Name]; s != nil && s.Kind == SymFunc {
+			for _, f := range s.Funcs {
+				registered = registered || f == fn
+			}
+		}
+		if !registered {
+			return
+		}
+	}
 	if fi == nil || fi.Stage == "" {
 		return
 	}
